@@ -2,7 +2,10 @@
 package document
 
 import (
+	"bytes"
 	"encoding/xml"
+	"io"
+	"strings"
 )
 
 // OfficeMath 表示Office数学公式元素
@@ -81,6 +84,11 @@ func (mp *MathParagraph) ElementType() string {
 func (d *Document) AddMathFormula(latex string, isBlock bool) *MathParagraph {
 	Debugf("添加数学公式: %s (块级: %v)", latex, isBlock)
 
+	// 公式内容按原样（innerxml）写入 m:oMath；若它不是格式良好的XML片段
+	// （例如直接传入了含 < & 或控制字符的LaTeX文本），整个 document.xml 会损坏。
+	// 这种情况下把它作为纯文本放进 m:r/m:t。
+	latex = sanitizeMathContent(latex)
+
 	mp := &MathParagraph{
 		Runs: []Run{},
 	}
@@ -122,4 +130,40 @@ func (p *Paragraph) AddInlineMath(ommlContent string) {
 		},
 	}
 	p.Runs = append(p.Runs, run)
+}
+
+// isWellFormedXMLFragment 判断字符串能否作为元素内容原样嵌入XML
+func isWellFormedXMLFragment(fragment string) bool {
+	decoder := xml.NewDecoder(strings.NewReader("<x>" + fragment + "</x>"))
+	depth := 0
+	for {
+		token, err := decoder.Token()
+		if err == io.EOF {
+			return depth == 0
+		}
+		if err != nil {
+			return false
+		}
+		switch token.(type) {
+		case xml.StartElement:
+			depth++
+		case xml.EndElement:
+			depth--
+			if depth < 0 {
+				return false
+			}
+		}
+	}
+}
+
+// sanitizeMathContent 保证写入 m:oMath 的内容是格式良好的XML片段
+func sanitizeMathContent(content string) string {
+	if isWellFormedXMLFragment(content) {
+		return content
+	}
+	var escaped bytes.Buffer
+	if err := xml.EscapeText(&escaped, []byte(content)); err != nil {
+		return ""
+	}
+	return "<m:r><m:t>" + escaped.String() + "</m:t></m:r>"
 }
